@@ -337,10 +337,31 @@ def check(ctx):
     ctx.count("definitions of the substituted missing value", n_src, 1)
     nvf = repo.fn(f"{VEC}._std_to_np_na_value")
     seq = []
+
+    def _with_tables(test):
+        """the test with names of literal type tables (a local `datetimes = [...]`, a module-level NUMBER_TYPES = (...))
+        replaced by the tables themselves"""
+        import copy
+        mod_tables = {t.targets[0].id: t.value for t in nvf.module.tree.body if isinstance(t, ast.Assign) and len(t.targets) == 1
+                      and isinstance(t.targets[0], ast.Name) and isinstance(t.value, (ast.Tuple, ast.List, ast.Set))}
+
+        class R(ast.NodeTransformer):
+            def visit_Name(self, node):
+                if not isinstance(node.ctx, ast.Load):
+                    return node
+                ds = [d for d in _defs(nvf, node.id, test)]
+                if len(ds) == 1 and ds[0].value is not None and isinstance(ds[0].value, (ast.Tuple, ast.List, ast.Set)):
+                    return copy.deepcopy(ds[0].value)
+                local = any(isinstance(x, ast.Name) and x.id == node.id and isinstance(x.ctx, ast.Store) for x in body_nodes(nvf.node)) \
+                    or node.id in nvf.all_params
+                if not local and node.id in mod_tables:
+                    return copy.deepcopy(mod_tables[node.id])
+                return node
+        return norm(R().visit(copy.deepcopy(test)))
     for s in nvf.node.body:
         if isinstance(s, ast.If):
             r = [x for x in s.body if isinstance(x, ast.Return)]
-            seq.append((norm(s.test), classify_value(r[0].value) if r else None))
+            seq.append((_with_tables(s.test), classify_value(r[0].value) if r else None))
         elif isinstance(s, ast.Return):
             seq.append(("else", classify_value(s.value)))
     # a leading "the dtype is known -> its own na_value" case may live here instead of in the caller (NA-src covers it there)
@@ -355,7 +376,8 @@ def check(ctx):
     vals = [v for _, v in seq]
     tests = [t for t, _ in seq]
     ok = vals == ["None", "na_object", "nan", "NaT", "None"] and tests[0] == "not types" and "str in types" in tests[1] \
-        and "float" in tests[2] and "int" in tests[2] and tests[2].startswith("all(") and "datetimes" in tests[3] and tests[3].startswith("all(")
+        and "float" in tests[2] and "int" in tests[2] and tests[2].startswith("all(") and tests[3].startswith("all(") \
+        and all(t_ in tests[3] for t_ in ("datetime.date", "datetime.datetime", "np.datetime64"))
     ctx.ob("SIB-pred", nvf, f"inference decision list {seq}", nvf.node, ok,
            "no values -> None; any str -> ''; all numeric -> NaN; all date-like -> NaT; otherwise None" if ok else
            "the decision list that picks the missing value from the element types no longer matches the statement",
